@@ -251,6 +251,10 @@ V("c11a-global-seeding-made-conditional", "C11", {"rule": "C11a", "contains": "r
 V("c11a-global-seeding-first", "C11", "silent",
   (CONFIGPY, "        self.rng = np.random.default_rng(self._seed_sequence)\n        random.seed(self._seed_sequence)",
    "        random.seed(self._seed_sequence)\n        self.rng = np.random.default_rng(self._seed_sequence)"))
+V("c09g-traced-exponent-conjugated-diagonal", "C09", {"rule": "C09g", "contains": "get_phaseshifter_expectation_value"},
+  (GSTATE, "            solved = np.linalg.solve(M, mean)\n            exponent = -(np.conj(mean) @ A @ solved)", "            solved = np.linalg.solve(M, mean)\n            exponent = -(np.conj((one_minus_z / 2) * mean) @ solved)"))
+V("c09g-traced-kernel-by-broadcasting", "C09", "silent",
+  (GSTATE, "            M = cov @ A + B\n", "            M = cov * (one_minus_z / 2)[None, :] + B\n"))
 # ------------------------------------------------------------------------------------------- C20
 V("c20-sub-add", "C20", {"rule": "C20c", "contains": "Sub"}, (EXPR, "ast.Sub: op.sub", "ast.Sub: op.add"))
 V("c20-lt-le", "C20", {"rule": "C20c", "contains": "Lt"}, (EXPR, "ast.Lt: op.lt", "ast.Lt: op.le"))
